@@ -137,6 +137,9 @@ macro_rules! wt {
     ($name:ident, $hk:ident, $f:ty, $kind:literal, $idle:expr) => {
         crate::mq_harness!($name, $hk, Runner<Wt<$f, $kind>, 0>, blocked_recv::<$f, $kind>(2, $idle));
     };
+    ($name:ident, $hk:ident, $f:ty, $kind:literal, $idle:expr, cap $cap:literal) => {
+        crate::mq_harness!($name, $hk, Runner<Wt<$f, $kind>, 0>, blocked_recv::<$f, $kind>($cap, $idle));
+    };
 }
 
 // BlockingWait (condvar): the stuck detector sits in the shim condvar wait
@@ -144,6 +147,9 @@ wt!(c08_mp_blk00_send, hk_c08_mp_blk00_send, MpBlk00, 1, 0);
 wt!(c08_bc_blk00_senddrop, hk_c08_bc_blk00_senddrop, BcBlk00, 2, 0);
 wt!(c08_mp_blk00_drop, hk_c08_mp_blk00_drop, MpBlk00, 3, 0);
 wt!(c08_bc_blk00_sibling, hk_c08_bc_blk00_sibling, BcBlk00, 4, 0);
+// N = 1: the producer laps the ring between two looks of the waiter
+wt!(c08_bc_blk00_sibling_n1, hk_c08_bc_blk00_sibling_n1, BcBlk00, 4, 0, cap 1);
+wt!(c08_mp_blk00_sibling_n1, hk_c08_mp_blk00_sibling_n1, MpBlk00, 4, 0, cap 1);
 wt!(c08_mp_blk11_send, hk_c08_mp_blk11_send, MpBlk11, 1, 0);
 wt!(c08_bc_blk20_view, hk_c08_bc_blk20_view, BcBlk20, 5, 0);
 // spinning strategies: the stuck detector fires after 16 fruitless steps with nobody left to run
@@ -151,3 +157,4 @@ wt!(c08_mp_busy_send, hk_c08_mp_busy_send, MpBusy, 1, 16);
 wt!(c08_mp_busy_drop, hk_c08_mp_busy_drop, MpBusy, 3, 16);
 wt!(c08_bc_yield11_senddrop, hk_c08_bc_yield11_senddrop, BcYield11, 2, 16);
 wt!(c08_mp_yield01_sibling, hk_c08_mp_yield01_sibling, MpYield00, 4, 16);
+wt!(c08_mp_busy_sibling_n1, hk_c08_mp_busy_sibling_n1, MpBusy, 4, 16, cap 1);
